@@ -576,6 +576,44 @@ pub fn generate(sink: &mut Sink, rng: &mut Rng, n: u64) {
             emit(sink, "o.c28.idem", &[Some(&Value::from(f)), Some(&v)]);
         }
     }
+    // case-insensitive affixes: the old counterexamples of starts_with (zip truncation, byte-length pre-check,
+    // repaired in 2b95bd7), multi-char lower-case expansions (İ, both directions), Final_Sigma, invalid bytes,
+    // special-casing pairs, empty strings
+    let ci_pairs: &[(&[u8], &[u8])] = &[
+        ("ⱥ".as_bytes(), "Ⱥx".as_bytes()),
+        ("Ⱥ".as_bytes(), "ⱥ".as_bytes()),
+        ("Ⱥb".as_bytes(), "ⱥB".as_bytes()),
+        ("i\u{307}".as_bytes(), "İ".as_bytes()),
+        ("İ".as_bytes(), "i\u{307}".as_bytes()),
+        ("İ".as_bytes(), "i".as_bytes()),
+        ("İx".as_bytes(), "İ".as_bytes()),
+        ("i\u{307}x".as_bytes(), "İx".as_bytes()),
+        ("ΑΣ".as_bytes(), "ας".as_bytes()),
+        ("ΑΣ".as_bytes(), "ασ".as_bytes()),
+        ("ΑΣΑ".as_bytes(), "ΑΣ".as_bytes()),
+        ("ας".as_bytes(), "ΑΣ".as_bytes()),
+        (b"\xff", b"\xff"),
+        (b"a\xff", b"A"),
+        (b"a\xe2\x82", b"A\xe2\x82"),
+        (b"\xef\xbf\xbd", b"\xff"),
+        ("ǅ".as_bytes(), "ǆ".as_bytes()),
+        ("ß".as_bytes(), "ẞ".as_bytes()),
+        ("\u{212a}".as_bytes(), "k".as_bytes()),
+        ("ﬁ".as_bytes(), "FI".as_bytes()),
+        (b"", b""),
+        (b"a", b""),
+        (b"", b"a"),
+        (b"aB", b"Ab"),
+        (b"a", b"AB"),
+    ];
+    for (v, sub) in ci_pairs {
+        let (v, sub) = (bv(v.to_vec()), bv(sub.to_vec()));
+        for fname in ["starts_with", "ends_with", "contains"] {
+            emit(sink, &format!("c28.{fname}"), &[Some(&v), Some(&sub), Some(&f)]);
+        }
+        emit(sink, "o.c28.affix", &[Some(&v), Some(&sub)]);
+        sink.count("c28:ci_affix_edge_cases");
+    }
     // whitespace table: exhaustive over the BMP in the quick tier, all scalar values in the thorough tier;
     // case-mapping law: exhaustive over all scalar values in the thorough tier, the first 0x3000 otherwise
     let thorough = n >= 20_000;
